@@ -99,3 +99,20 @@ fn iso_diagnostics_to_params<TCompilationProfile: CompilationProfile>(
         paths,
     )
 }
+
+#[cfg(isographlabs_isograph_verif)]
+pub fn verif_publish_new_diagnostics_and_clear_old_diagnostics<
+    TCompilationProfile: CompilationProfile,
+>(
+    db: &IsographDatabase<TCompilationProfile>,
+    new_diagnostics: &[Diagnostic],
+    sender: &crossbeam::channel::Sender<lsp_server::Message>,
+    old_uris_with_diagnostics: BTreeSet<Uri>,
+) -> BTreeSet<Uri> {
+    publish_new_diagnostics_and_clear_old_diagnostics(
+        db,
+        new_diagnostics,
+        sender,
+        old_uris_with_diagnostics,
+    )
+}
